@@ -285,6 +285,9 @@ def run(ctx):
     from props import globcommon as _gc9
     nfr_ = _gc9.fringe_names(ctx)
     ctx.counted('escaped entries and literal names on a tree of non-ASCII and case-twin names', nfr_, nfr_ // 2, [{'entry': '\u0130stanbul.txt', 'flags': 'IGNORECASE'}])
+    from props import glue
+    glue.filter_vs_match(ctx, rng)
+    glue.escape_default_platform(ctx, rng)
     return ctx.finish(RULE)
 
 
